@@ -1,6 +1,6 @@
 (* C11 - Gather toggles and the app-id check behave as documented (Valve; the
    Unreal 2 rows are added with its model). *)
-From GD Require Import Base.Prelude Model.Strings Model.Buffer Model.Net Model.Valve Spec.ValveSpec Proofs.Gather.
+From GD Require Import Base.Prelude Model.Strings Model.Buffer Model.Net Model.Valve Model.Unreal2 Spec.ValveSpec Proofs.Gather.
 
 (* the toggle itself, for any section function and any state *)
 Theorem c11_skip_never_runs : forall A (m : M A) n, maybe_gather Skip m n = (Ok None, n).
@@ -68,6 +68,25 @@ Theorem c11_valve_enforce_rules : forall bz port e g t info n players n1 x n',
   sections bz port e g t info n = (Err x, n').
 Proof. exact sections_enforce_rules_err. Qed.
 Print Assumptions c11_valve_enforce_rules.
+
+(* Unreal 2: info, then the two sections gated by their toggles (the toggle
+   laws above apply to query_mr / query_players as to any section) *)
+Theorem c11_unreal2_query_structure : forall port g t,
+  u2_query port (Some g) t =
+  (do* _ := udp_new port t in
+   do* info := query_server_info port (ts_retries_or_default t) in
+   do* mr := maybe_gather (ug_mr g) (query_mr port (ts_retries_or_default t)) in
+   let mr := match mr with Some x => x | None => mk_u2mr [] [] end in
+   let info := match map_lookup (str "GamePassword") (map (fun kv => (fst kv, concat (snd kv))) (mr_rules mr)) with
+               | Some v => mk_u2info (ui_server_id info) (ui_ip info) (ui_game_port info) (ui_query_port info) (ui_name info)
+                                     (ui_map info) (ui_game_type info) (ui_num_players info) (ui_max_players info)
+                                     (bytes_eqb (map ascii_lower v) (str "true"))
+               | None => info
+               end in
+   do* players := maybe_gather (ug_players g) (query_players port (ts_retries_or_default t) (ui_num_players info)) in
+   mret (mk_u2resp info mr (match players with Some p => p | None => mk_u2ps [] [] end))).
+Proof. reflexivity. Qed.
+Print Assumptions c11_unreal2_query_structure.
 
 (* the app-id relation: main id, dedicated id, other id, no expectation *)
 Example c11_ex_appid :
